@@ -81,6 +81,8 @@ from xdsl.traits import (
     HasParent,
     IsolatedFromAbove,
     IsTerminator,
+    MemoryReadEffect,
+    MemoryWriteEffect,
     NoMemoryEffect,
     NoTerminator,
     RecursiveMemoryEffect,
@@ -4742,6 +4744,9 @@ class AtomicUpdateOp(IRDLOperation):
         lambda: (
             SingleBlockImplicitTerminator(YieldOp),
             RecursiveMemoryEffect(),
+            # the variable at `x` is read and written
+            MemoryReadEffect(),
+            MemoryWriteEffect(),
         )
     )
 
